@@ -254,6 +254,7 @@ const (
 	AHoldNext             // template: the next proposal the actor would make is created but withheld
 	ARelease              // template: a withheld proposal is sent (late) to the replicas selected by B
 	AProposeOldAgg        // template (aggregate QCs): a proposal justified by an OLD, genuine aggregate QC: certificate = that aggregate's high QC, parent = its block
+	AProposeRelabelledSigners // template: the proposal the actor would make honestly, but the block's certificate attributes the genuine signatures to other replicas (same view, hash and signature bytes); with aggregate QCs the genuine aggregate goes along
 	aCount
 )
 
@@ -278,7 +279,7 @@ func (a *Actor) Act(A, B, C int) {
 	}
 	if cl.Cfg.ActorAuto {
 		switch mod(A, aCount) {
-		case AProposeSkip, AProposeStaleQC, AEquivocate, AProposeWeird, AProposeOnForged, AProposeOldAgg:
+		case AProposeSkip, AProposeStaleQC, AEquivocate, AProposeWeird, AProposeOnForged, AProposeOldAgg, AProposeRelabelledSigners:
 			a.armed = &Step{K: KActor, A: mod(A, aCount), B: B, C: C}
 			return
 		}
@@ -630,9 +631,102 @@ func (a *Actor) Act(A, B, C int) {
 		for _, to := range a.targets(0) {
 			a.send(me, to, hotstuff.ProposeMsg{ID: me.ID, Block: blk, AggregateQC: &old})
 		}
+	case AProposeRelabelledSigners:
+		v := a.leaderViewNear(me, B)
+		qc := a.highestKnownQC()
+		if b := a.blockOf(qc.BlockHash()); b != nil && b.View() >= v {
+			v = b.View() + 1
+		}
+		var agg *hotstuff.AggregateQC
+		if cl.Cfg.Rules == "fasthotstuff" && len(a.AggQCs) > 0 {
+			x := a.AggQCs[len(a.AggQCs)-1]
+			agg = &x
+			if best, ok := highestIn(x); ok {
+				qc = best
+				if best.View() >= v {
+					v = best.View() + 1
+				}
+			}
+		}
+		rq, ok := a.relabelSigners(qc, C)
+		if !ok {
+			return
+		}
+		blk := hotstuff.NewBlock(rq.BlockHash(), rq, a.batch(), v, me.ID)
+		cl.register(blk)
+		for _, to := range a.targets(0) {
+			a.send(me, to, hotstuff.ProposeMsg{ID: me.ID, Block: blk, AggregateQC: agg})
+		}
 	case AToggleFetch:
 		a.ServeFetch = !a.ServeFetch
 	}
+}
+
+// highestIn returns the certificate of the highest view attested inside an aggregate QC.
+func highestIn(agg hotstuff.AggregateQC) (best hotstuff.QuorumCert, found bool) {
+	for _, c := range agg.QCs() {
+		if !found || c.View() > best.View() {
+			best, found = c, true
+		}
+	}
+	return
+}
+
+// relabelSigners keeps view, block hash and signature bytes of a certificate and attributes the individual signatures to
+// other replicas: labels rotated among the signers (even sel) or one label replaced by a replica that did not sign (odd sel).
+func (a *Actor) relabelSigners(qc hotstuff.QuorumCert, sel int) (hotstuff.QuorumCert, bool) {
+	sig := qc.Signature()
+	if sig == nil || sig.Participants().Len() < 2 {
+		return qc, false
+	}
+	var ids []hotstuff.ID
+	sig.Participants().ForEach(func(id hotstuff.ID) { ids = append(ids, id) })
+	labels := make([]hotstuff.ID, len(ids))
+	if mod(sel, 2) == 0 {
+		rot := 1 + mod(sel/2, len(ids)-1)
+		for i := range ids {
+			labels[i] = ids[(i+rot)%len(ids)]
+		}
+	} else {
+		copy(labels, ids)
+		var outsider hotstuff.ID
+		for id := 1; id <= a.cl.Cfg.N; id++ {
+			if !sig.Participants().Contains(hotstuff.ID(id)) {
+				outsider = hotstuff.ID(id)
+			}
+		}
+		if outsider == 0 {
+			return qc, false
+		}
+		labels[mod(sel/2, len(labels))] = outsider
+	}
+	var out hotstuff.QuorumSignature
+	switch m := sig.(type) {
+	case crypto.Multi[*fastSig]:
+		var l crypto.Multi[*fastSig]
+		for i, p := range m {
+			l = append(l, &fastSig{labels[i], p.tag})
+		}
+		out = l
+	case crypto.Multi[*crypto.ECDSASignature]:
+		l := make([]*crypto.ECDSASignature, len(m))
+		for i, p := range m {
+			l[i] = crypto.RestoreECDSASignature(p.ToBytes(), labels[i])
+		}
+		out = crypto.NewMulti(l...)
+	case crypto.Multi[*crypto.EDDSASignature]:
+		l := make([]*crypto.EDDSASignature, len(m))
+		for i, p := range m {
+			l[i] = crypto.RestoreEDDSASignature(p.ToBytes(), labels[i])
+		}
+		out = crypto.NewMulti(l...)
+	default:
+		return qc, false
+	}
+	rq := hotstuff.NewQuorumCert(out, qc.View(), qc.BlockHash())
+	a.Forged[string(rq.ToBytes())+fmt.Sprint(labels)] = "relabelled-signers"
+	a.ForgedQCs = append(a.ForgedQCs, rq) // new-view and timeout messages carry the newest fabricated certificates
+	return rq, true
 }
 
 
@@ -758,6 +852,15 @@ func (a *Actor) proposeMaybeDeviating(me *Stack, qc hotstuff.QuorumCert, v hotst
 			}
 			parent = cl.AllBlk[mod(dev.B, len(cl.AllBlk))].Hash()
 			qc = a.QCs[mod(dev.C, len(a.QCs))]
+		case AProposeRelabelledSigners:
+			if agg != nil {
+				if best, ok := highestIn(*agg); ok && best.BlockHash() == qc.BlockHash() {
+					qc = best // exactly the aggregate's high QC, then relabelled
+				}
+			}
+			if rq, ok := a.relabelSigners(qc, dev.C); ok {
+				qc = rq
+			}
 		case AProposeOldAgg:
 			if len(a.AggQCs) == 0 {
 				break
